@@ -12,7 +12,16 @@ package streams
 // process so that a panic in a driver goroutine or a race report (GORACE=halt_on_error) is
 // attributed to the case that caused it).
 //
+// The mock search prints info lines of very different lengths (up to ~1.2 kB: a long principal
+// variation of well-formed moves, one Write call per line like the real search) and a share of the
+// cases has a SLOW CONSUMER of stdout (the io.Writer handed to the driver sleeps / stalls before it
+// passes the bytes on, as a GUI that is not reading does), so that the output channel fills up and
+// concurrent writers (search, interrupter) queue on it; isready bursts are sent meanwhile. Every
+// stdout line must still be a complete line of a known kind.
+//
 // input  = n :: mode :: unit_us :: tail :: n records [code; a; b; c; delay; dur]
+//          mode = real + 2*slow (real: 0 mock search, 1 real search; slow: 0 prompt consumer,
+//          1 / 2 every write delayed by 300 us / 1 ms, 3 stalls of 5 ms at the 2nd, 5th, 8th ... write)
 // output = ret :: gor :: crash :: nout :: tokens... :: nseen :: seen...
 // (see coq/Spec/UciSpec.v for the meaning of the numbers)
 
@@ -57,6 +66,7 @@ const (
 	gfSelffin = 4
 	gfPhgate  = 8
 	gfAck     = 16
+	gfLong    = 32 // (mock, harness only) info lines with principal variations of up to 230 moves
 )
 
 const (
@@ -71,8 +81,42 @@ type c13Line struct {
 }
 
 type c13Case struct {
-	mode, unit, tail int64 // mode 0 mock, 1 real search; unit in microseconds; tail = delay before end of input
+	mode, unit, tail int64 // mode = real + 2*slow; unit in microseconds; tail = delay before end of input
 	lines            []c13Line
+}
+
+func (c *c13Case) real() bool { return c.mode&1 == 1 }
+func (c *c13Case) slow() int  { return int(c.mode>>1) & 7 }
+
+// c13PvLen is the number of moves in the principal variation of the k-th info line of a mock
+// search with the gfLong flag (5 bytes per move: 190 .. 1150 bytes, and short lines in between).
+func c13PvLen(c, k int64) int {
+	return []int{38, 0, 120, 60, 230, 0, 45, 100}[int((k+c/16)%8+8)%8]
+}
+
+var c13PvMoves = []string{"e2e4", "e7e5", "g1f3", "b8c6", "f1b5", "a7a6", "b5a4", "g8f6", "e1g1", "f8e7", "a7a8q", "h2h1n"}
+
+// c13SlowWriter is the GUI side of stdout being slow: the driver's writer goroutine is held up
+// before the bytes reach the pipe.
+type c13SlowWriter struct {
+	w    io.Writer
+	kind int
+	n    int
+}
+
+func (s *c13SlowWriter) Write(p []byte) (int, error) {
+	s.n++
+	switch s.kind {
+	case 1:
+		time.Sleep(300 * time.Microsecond)
+	case 2:
+		time.Sleep(time.Millisecond)
+	case 3:
+		if s.n%3 == 2 {
+			time.Sleep(5 * time.Millisecond)
+		}
+	}
+	return s.w.Write(p)
 }
 
 func init() {
@@ -179,14 +223,17 @@ func c13Parse(a hx.Args) (*c13Case, bool) {
 
 func (c *c13Case) desc() string {
 	var sb strings.Builder
-	if c.mode == 0 {
+	if !c.real() {
 		fmt.Fprintf(&sb, "mock search, unit %dus:", c.unit)
 	} else {
 		fmt.Fprintf(&sb, "real search, unit %dus:", c.unit)
 	}
+	if c.slow() != 0 {
+		fmt.Fprintf(&sb, " [slow stdout consumer %d]", c.slow())
+	}
 	for _, l := range c.lines {
 		fmt.Fprintf(&sb, " +%d %q", l.delay, l.text())
-		if l.code == c13Go && c.mode == 0 {
+		if l.code == c13Go && !c.real() {
 			if l.dur < 0 {
 				fmt.Fprintf(&sb, "[runs until stopped, <=%d infos", l.b)
 			} else {
@@ -194,6 +241,9 @@ func (c *c13Case) desc() string {
 			}
 			if l.a&gfPhgate != 0 {
 				sb.WriteString(", counted from ponderhit")
+			}
+			if l.a&gfLong != 0 {
+				sb.WriteString(", long pv lines")
 			}
 			sb.WriteString("]")
 		}
@@ -231,7 +281,19 @@ func (m *c13Mock) Go(_ *board.Board, opts ...search.Option) (Score, move.Move, m
 		if left > 0 && o.Output != nil {
 			left--
 			k++
-			fmt.Fprintf(o.Output, "info string mock %d %d\n", i, k)
+			pv := ""
+			if cfg.a&gfLong != 0 {
+				if n := c13PvLen(cfg.c, int64(k)); n > 0 {
+					var sb strings.Builder
+					sb.WriteString(" pv")
+					for j := 0; j < n; j++ {
+						sb.WriteByte(' ')
+						sb.WriteString(c13PvMoves[(j+k)%len(c13PvMoves)])
+					}
+					pv = sb.String()
+				}
+			}
+			fmt.Fprintf(o.Output, "info string mock %d %d%s\n", i, k, pv) // one Write call per line
 		}
 	}
 	for j := int64(0); j < cfg.b/2; j++ {
@@ -284,7 +346,7 @@ var (
 	reIdName   = regexp.MustCompile(`^id name chess-3 \S+$`)
 	reIdAuthor = regexp.MustCompile(`^id author Paul Sonkoly$`)
 	reOption   = regexp.MustCompile(`^option name \S+ type (spin default -?\d+ min -?\d+ max -?\d+|check default (true|false))$`)
-	reMockInfo = regexp.MustCompile(`^info string mock (\d+) (\d+)$`)
+	reMockInfo = regexp.MustCompile(`^info string mock (\d+) (\d+)( pv( ` + reMv + `)+)?$`)
 	reMockAck  = regexp.MustCompile(`^info string ponderhit (\d+)$`)
 	reInfo     = regexp.MustCompile(`^info depth \d+ score (cp -?\d+|mate -?\d+|Inv) nodes \d+ time \d+ hashfull \d+ pv( ` + reMv + `)* ?$`)
 	reInfoEnd  = regexp.MustCompile(`^info depth \d+ nodes \d+$`)
@@ -376,8 +438,12 @@ func c13RunCase(c *c13Case) *c13Obs {
 		panic(err)
 	}
 	unit := time.Duration(c.unit) * time.Microsecond
-	opts := []uci.DriverOpt{uci.WithInput(inR), uci.WithOutput(outW), uci.WithError(io.Discard)}
-	if c.mode == 0 {
+	var stdout io.Writer = outW
+	if c.slow() != 0 {
+		stdout = &c13SlowWriter{w: outW, kind: c.slow()}
+	}
+	opts := []uci.DriverOpt{uci.WithInput(inR), uci.WithOutput(stdout), uci.WithError(io.Discard)}
+	if !c.real() {
 		m := &c13Mock{unit: unit}
 		for _, l := range c.lines {
 			if l.code == c13Go {
@@ -387,7 +453,7 @@ func c13RunCase(c *c13Case) *c13Obs {
 		opts = append(opts, uci.WithSearch(m))
 	}
 	d := uci.NewDriver(opts...)
-	sink := &c13Sink{mock: c.mode == 0}
+	sink := &c13Sink{mock: !c.real()}
 	sink.cond = sync.NewCond(&sink.mu)
 
 	var wg sync.WaitGroup
@@ -733,6 +799,9 @@ func c13GenGo(rng *hx.Rng, mode int64) c13Line {
 			l.a |= gfPhgate
 		}
 		l.b = []int64{0, 0, 1, 2, 3, 6, 10}[rng.Intn(7)]
+		if rng.Chance(0.3) {
+			l.a |= gfLong
+		}
 	} else {
 		l.a |= gfSelffin // MaxPlies is always a limit
 		switch rng.Intn(8) {
@@ -860,7 +929,16 @@ func c13Input(c *c13Case, sweep string) hx.Input {
 	if !c13Conforming(c.lines) {
 		panic("c13 generator produced a non-conforming script: " + c.desc())
 	}
-	tags := []string{"search:" + []string{"mock", "real"}[c.mode], "timing:" + sweep}
+	tags := []string{"search:" + []string{"mock", "real"}[c.mode&1], "timing:" + sweep}
+	if c.slow() != 0 {
+		tags = append(tags, "stdout:slow-consumer")
+	}
+	for _, l := range c.lines {
+		if l.code == c13Go && l.a&gfLong != 0 {
+			tags = append(tags, "info:long-lines")
+			break
+		}
+	}
 	racing, inSearch := false, false
 	kinds := map[string]bool{}
 	for i, l := range c.lines {
@@ -907,7 +985,7 @@ func genC13(rng *hx.Rng, n int, tier string, emit func(hx.Input)) {
 	cnt := 0
 	// back-to-back: searches that end at once, the next guarded line sent the moment the bestmove is
 	// seen (hits the window between printing bestmove and the end of handleGo)
-	for ; cnt < 2*n/5 && c13Stuck < 4 && c13Crashes < 40; cnt++ {
+	for ; cnt < 7*n/20 && c13Stuck < 4 && c13Crashes < 40; cnt++ {
 		c := &c13Case{mode: 0, unit: 100}
 		k := 6 + rng.Intn(10)
 		for j := 0; j < k; j++ {
@@ -931,13 +1009,50 @@ func genC13(rng *hx.Rng, n int, tier string, emit func(hx.Input)) {
 		}
 		emit(c13Input(c, "back-to-back"))
 	}
+	// congested output: a slow consumer of stdout, a search that prints many info lines of very
+	// different lengths at once (the output channel fills, the search blocks in the middle of its
+	// burst), and a burst of isready meanwhile (the interrupter queues on the same channel)
+	for ; cnt < 9*n/20 && c13Stuck < 4 && c13Crashes < 40; cnt++ {
+		c := &c13Case{mode: 2 * int64(1+rng.Intn(3)), unit: []int64{100, 300}[rng.Intn(2)], tail: int64(rng.Intn(3))}
+		if rng.Chance(0.3) {
+			c.lines = append(c.lines, c13Line{code: c13Uci})
+		}
+		for g := 1 + rng.Intn(2); g > 0; g-- {
+			gl := c13Line{code: c13Go, a: gfAck | gfLong, b: int64(8 + rng.Intn(10)), dur: -1, delay: int64(rng.Intn(2))}
+			gl.c = 16 * int64(rng.Intn(8)) // go infinite; the parameter only shifts the line lengths
+			if rng.Chance(0.4) {
+				gl.dur = int64(2 + rng.Intn(6))
+				gl.a |= gfSelffin
+				gl.c += 1 + 16*8 // go depth
+			}
+			c.lines = append(c.lines, gl)
+			for k := 2 + rng.Intn(5); k > 0; k-- {
+				c.lines = append(c.lines, c13Line{code: c13Isready, delay: int64([]int{0, 0, 0, 1, 2}[rng.Intn(5)])})
+			}
+			if gl.dur < 0 || rng.Bool() {
+				c.lines = append(c.lines, c13Line{code: c13Stop, delay: int64(rng.Intn(4))})
+			}
+			if rng.Chance(0.3) {
+				c.lines = append(c.lines, c13Line{code: c13Isready})
+			}
+		}
+		if rng.Chance(0.7) {
+			c.lines = append(c.lines, c13Line{code: c13Quit})
+		}
+		emit(c13Input(c, "congested"))
+	}
 	for cnt < n && c13Stuck < 4 && c13Crashes < 40 {
 		mode := int64(0)
 		if rng.Chance(0.25) {
 			mode = 1
 		}
 		unit := []int64{300, 1000}[rng.Intn(2)]
-		base := &c13Case{mode: mode, unit: unit, tail: c13Delay(rng), lines: c13GenScript(rng, mode)}
+		lines := c13GenScript(rng, mode)
+		cmode := mode
+		if rng.Chance(0.15) {
+			cmode += 2 * int64(1+rng.Intn(3)) // slow consumer of stdout
+		}
+		base := &c13Case{mode: cmode, unit: unit, tail: c13Delay(rng), lines: lines}
 		emit(c13Input(base, "random"))
 		cnt++
 		// sweep: the first line after the first go against the duration of that search
@@ -966,7 +1081,7 @@ func genC13(rng *hx.Rng, n int, tier string, emit func(hx.Input)) {
 			if cnt >= n {
 				break
 			}
-			c := &c13Case{mode: mode, unit: unit, lines: append([]c13Line(nil), base.lines...)}
+			c := &c13Case{mode: cmode, unit: unit, lines: append([]c13Line(nil), base.lines...)}
 			if rng.Bool() {
 				c.tail = v
 			}
